@@ -13,8 +13,8 @@ import (
 	"github.com/tdewolff/parse/v2"
 	"github.com/tdewolff/parse/v2/css"
 	"github.com/tdewolff/parse/v2/html"
-	pjson "github.com/tdewolff/parse/v2/json"
 	"github.com/tdewolff/parse/v2/js"
+	pjson "github.com/tdewolff/parse/v2/json"
 	"github.com/tdewolff/parse/v2/xml"
 
 	"verif/harness/internal/reg"
@@ -383,12 +383,12 @@ var corpus = map[string][]string{
 	"js": {"var a = 1;\nlet b = 'x\u00e9';\nif (a) { b = `t${a}u` }", "function f(x, y) {\r\n  return x / y // c\n}\nf(1, 2)", "a = /re[/]x/g.test(s) ? {k: [1, 2.5e3]} : null",
 		"class A extends B { #p = 1; static m() { return super.m() } }", "for (const x of [1,2]) { x => x+1 }\u2028y\u2029z", "a = 0x1F + 1_000n - .5e-3; /* \U0001F600 */ b++", "label: while (1) { break label }"},
 	"jslex": {"var a = 1;\nlet b = 'x\u00e9';", "a = 0x1F + 1_000n - .5e-3; /* \U0001F600 */ b++", "`t${a}u` 'str' \"s\\\n\" /=/", "1.5e+3 0b101 0o17 078 1n .5"},
-	"json": {"{\"a\": [1, -2.5e3, true, null], \"b\u00e9\": {\"c\": \"\U0001F600\\n\"}}", "[\n  1,\r\n  \"two\",\n  {\"three\": 3}\n]", "[[[]], {}, \"\", 0]"},
+	"json":  {"{\"a\": [1, -2.5e3, true, null], \"b\u00e9\": {\"c\": \"\U0001F600\\n\"}}", "[\n  1,\r\n  \"two\",\n  {\"three\": 3}\n]", "[[[]], {}, \"\", 0]"},
 	"css": {"a { color: red; margin: 0 auto }\n@media (min-width: 10px) {\n  b > c { d: e(1, 2) !important }\r\n}", "@import url('x\u00e9.css');\n.a::before { content: \"\\201C\"; --v: {a:b} }", "color: red; background: url(x.png) no-repeat; width: calc(1px + 2%)",
 		"a{b:c}d{e:f;g:h}/* \U0001F600 */i{}", "@font-face { font-family: x; src: url(a) }\n@keyframes k { from { a: b } 50% { c: d } }"},
-	"xml":  {"<?xml version=\"1.0\"?>\n<a b=\"c\u00e9\">text<!-- c --><d/>\r\n<![CDATA[x]]></a>", "<!DOCTYPE a [<!ENTITY e \"v\">]><a x='1' y=\"2\">&e;</a>"},
+	"xml": {"<a b=\"c\nd\" e='f\r\ng'>\n<h i=\"j\tk\"/>x</a>", "<?xml version=\"1.0\"?>\n<a b=\"c\u00e9\">text<!-- c --><d/>\r\n<![CDATA[x]]></a>", "<!DOCTYPE a [<!ENTITY e \"v\">]><a x='1' y=\"2\">&e;</a>"},
 	"html": {"<!doctype html>\n<html><head><title>t\u00e9</title><script>var a = '</b>';\n</script></head>\r\n<body class=a id='b'>x<br/><!-- c --><style>a{b:c}</style></body></html>",
-		"<p a=1 b='2' c=\"3\" d>text &amp; more<svg><path d=\"M0\"/></svg><textarea>\U0001F600</textarea>"},
+		"<div a=\"b\nc\" d='e\r\nf'>\n<p g=\"h\ti\">x</p></div>", "<p a=1 b='2' c=\"3\" d>text &amp; more<svg><path d=\"M0\"/></svg><textarea>\U0001F600</textarea>"},
 }
 var suiteNames = []string{"js", "jslex", "json", "css", "xml", "html"}
 
@@ -437,6 +437,7 @@ func Record(args []string) {
 	n := fs.Int("n", 500, "number of random texts")
 	offs := fs.Int("offs", 8, "offsets per text")
 	m := fs.Int("m", 2000, "number of mutated parser inputs")
+	sweep := fs.Bool("sweep", true, "also: every corpus document truncated at / NUL substituted at / NUL inserted at every offset")
 	seed := fs.Int64("seed", 1, "seed")
 	tid0 := fs.Int("tid0", 0, "trace ids start after this number")
 	fs.Parse(args)
@@ -466,14 +467,7 @@ func Record(args []string) {
 		w.End(true)
 	}
 	seen := map[string]bool{}
-	for t := 0; t < *m; t++ {
-		suite := suiteNames[rng.Intn(len(suiteNames))]
-		docs := corpus[suite]
-		input := mutate(rng, []byte(docs[rng.Intn(len(docs))]))
-		opt := 0
-		if (suite == "css" || suite == "js") && rng.Intn(3) == 0 {
-			opt = 1
-		}
+	harvest := func(suite string, opt int, input []byte) {
 		tid++
 		sum.Executions++
 		errs, _ := errTrace(w, tid, suite, opt, input, -1, false)
@@ -487,6 +481,30 @@ func Record(args []string) {
 				sum.Samples = append(sum.Samples, map[string]interface{}{"suite": suite, "input": string(input), "line": errs[0].e.Line, "col": errs[0].e.Column, "msg": errs[0].e.Message})
 			}
 		}
+	}
+	if *sweep {
+		for _, suite := range suiteNames {
+			for _, doc := range corpus[suite] {
+				d := []byte(doc)
+				for off := 0; off <= len(d); off++ {
+					harvest(suite, 0, d[:off])
+					harvest(suite, 0, append(append(append([]byte{}, d[:off]...), 0), d[off:]...))
+					if off < len(d) {
+						harvest(suite, 0, append(append(append([]byte{}, d[:off]...), 0), d[off+1:]...))
+					}
+				}
+			}
+		}
+	}
+	for t := 0; t < *m; t++ {
+		suite := suiteNames[rng.Intn(len(suiteNames))]
+		docs := corpus[suite]
+		input := mutate(rng, []byte(docs[rng.Intn(len(docs))]))
+		opt := 0
+		if (suite == "css" || suite == "js") && rng.Intn(3) == 0 {
+			opt = 1
+		}
+		harvest(suite, opt, input)
 	}
 	w.Close()
 	sum.Traces, sum.Events = w.Traces, w.Events
